@@ -107,6 +107,20 @@ func vNormPrefix(p string) string {
 	return "/" + p
 }
 
+// vHexEscapeNonASCII: what net/http does to a redirect target before it becomes the Location header.
+func vHexEscapeNonASCII(s string) string {
+	const hex = "0123456789ABCDEF"
+	out := make([]byte, 0, len(s))
+	for i := 0; i < len(s); i++ {
+		if s[i] >= 0x80 {
+			out = append(out, '%', hex[s[i]>>4], hex[s[i]&15])
+		} else {
+			out = append(out, s[i])
+		}
+	}
+	return string(out)
+}
+
 func VH_C16_static() {
 	prefix := vx.Param("prefix")
 	index := vx.Param("index")
@@ -195,6 +209,10 @@ func VH_C16_static() {
 	if !vx.Symbolic() {
 		served = spy.headers == 1 && (spy.firstCode == 200 || spy.firstCode == 304)
 		redirected = spy.firstCode == 302
+		if redirected {
+			// natively the real http.Redirect ran: its Location is the target it was given (bytes >= 0x80 hex-escaped)
+			vx.Assert(spy.Header().Get("Location") == vHexEscapeNonASCII(path.Clean(upath)+"/"), "C16: a directory without trailing slash is redirected to its slash-terminated form with 302")
+		}
 	}
 
 	// what must have happened, from the answers the file system gave
